@@ -5,7 +5,8 @@ E2 == <<730500, 43200>>      \* an effective date at noon
 I  == <<731000, 0>>          \* an ineffective date
 MCKinds   == {"cert", "crl", "ocsp"}
 MCSources == {"CABF_BR", "CABF_SMIME_BR", "CABF_CS_BR", "RFC5280"}
-MCWindows == {<<Zero, Zero>>, <<E, Zero>>, <<Zero, I>>, <<E, I>>, <<E2, I>>}
+MCWindows == {<<Zero, Zero>>, <<E, Zero>>, <<Zero, I>>, <<E, I>>, <<E2, I>>,
+              <<I, E>>, <<E, E>>}     \* declared windows that are empty (ineffective not after effective): nothing is ever judged
 MCTimes   == {PlusSec(E, -1), E, PlusSec(E, 1), PlusSec(E2, -1), E2, <<730700, 5>>, PlusSec(I, -1), I, PlusSec(I, 1)}
 MCFacts   == [ekus : SUBSET {0, 1, 4}, unk : {0, 1},
               pols : {{}, {"2.23.140.1.2.1"}, {"2.23.140.1.5.1.1"}, {"2.23.140.1.4.1"}, {"1.2.3"}, {"2.23.140.1.2.1", "2.23.140.1.4.1"},
